@@ -21,7 +21,7 @@ func init() {
 			"(R1) every function that places rows into a table chosen with user-supplied relation targets registers those targets; (R2) every caller of pool-recycle tests the target flag of the recycled entity and, when set, runs the cleanup and clears the flag; " +
 			"(R3) free protocol: at every site that frees a table (sets its free flag) the operation removes the table from all four lookup containers — the archetype's active list, the per-column target index, the per-target table index (for every target of the table) and every cached filter; tables put on a free list are marked free, tables taken from it are recycled; " +
 			"(R4) every path that activates a table registers it with the archetype and the filter cache; (R5) relation component/target validity checks precede taking or creating the table; (R6) exact table lookup compares whole entities (id and generation); " +
-			"(R7) the per-column target index is indexed by column index only; (R8) the target-validity check is unreachable from the target cleanup: after a batch removal the remaining targets of a table may be entities of the same batch that are still to be cleaned up, so validating them can only fail a valid call; (R9) the lookup containers are sets: a table id is appended to a table-id container outside loops, or to a container selected by the loop variable itself, or under a negative membership test; (R10 = C01/R8) the relation list a table is created or recycled with is never derived from a scratch buffer; (R11) a local slice or mask that is filled and consumed inside a loop but declared outside it (and not read after it) is emptied inside that loop, so that the relations collected for one table are not applied to the next; (R12) the per-target table index drops a target's entry only in the function that removes the target from every relation column, or under a test that the entry's own list is empty; (R13) a list that several objects may share is never overwritten in place: bulk in-place writes (append to a re-slice, copy into, or an append to a field that another function cuts back) into a slice field of a persistent object are admitted only when no list read from that field (of any object) can reach a store into a persistent field (path-sensitive taint analysis, through locals, parameters, helper results and retaining callees; the views that query objects hold while the world is locked are not owners); the per-column purge of the free protocol (R3) must run for every relation column: inside the loop over the columns it may depend only on the column being a relation column and on its own lookup. (R14) a slice field that a function both walks and empties is walked before it is emptied: the walk is not reached, on every path, with the list just emptied and not refilled (free flags set over an already cleared list). Not decided: multi-step target-death histories; that the protocols compose.",
+			"(R7) the per-column target index is indexed by column index only; (R8) the target-validity check is unreachable from the target cleanup: after a batch removal the remaining targets of a table may be entities of the same batch that are still to be cleaned up, so validating them can only fail a valid call; (R9) the lookup containers are sets: a table id is appended to a table-id container outside loops, or to a container selected by the loop variable itself, or under a negative membership test; (R10 = C01/R8) the relation list a table is created or recycled with is never derived from a scratch buffer; (R11) a local slice or mask that is filled and consumed inside a loop but declared outside it (and not read after it) is emptied inside that loop, so that the relations collected for one table are not applied to the next; (R12) the per-target table index drops a target's entry only in the function that removes the target from every relation column, or under a test that the entry's own list is empty; (R13) a list that several objects may share is never overwritten in place: bulk in-place writes (append to a re-slice, copy into, or an append to a field that another function cuts back) into a slice field of a persistent object are admitted only when no list read from that field (of any object) can reach a store into a persistent field (path-sensitive taint analysis, through locals, parameters, helper results and retaining callees; the views that query objects hold while the world is locked are not owners); the per-column purge of the free protocol (R3) must run for every relation column: inside the loop over the columns it may depend only on the column being a relation column and on its own lookup. (R14) a slice field that a function both walks and empties is walked before it is emptied: the walk is not reached, on every path, with the list just emptied and not refilled (free flags set over an already cleared list). (R15) a table-id list is not walked forwards while the loop body can remove tables from such lists (swap-remove): such a walk goes backwards by index. Not decided: multi-step target-death histories; that the protocols compose.",
 		TrustedBase: []string{"go/types, go/cfg", "container purge summaries derived from loops over the lookup containers", "single-relation idiom: a table of an archetype with one relation has exactly one target"},
 		Rules: []Rule{
 			{ID: "C04/R1", Run: c04r1, Min: 1},
@@ -38,6 +38,7 @@ func init() {
 			{ID: "C04/R12", Run: c04r12, Min: 1},
 			{ID: "C04/R14", Run: c04r14, Min: 1},
 			{ID: "C04/R13", Run: c04r13, Min: 1},
+			{ID: "C04/R15", Run: c04r15, Min: 1},
 		},
 	})
 }
